@@ -72,6 +72,13 @@ def configs(tier):
                         if happy != min(n, S) and size not in (56, 57):
                             continue
                         out.append({"k": k, "n": n, "happy": happy, "seg": seg, "size": size, "S": S})
+    # LARGE blocks with short tails: the tail block is much smaller than the others, so anything that
+    # sizes a request by the full block reaches beyond the hash trees / the end of the share file
+    big = [(1, 1), (2, 3), (4, 5), (4, 4), (3, 10)] if tier == "quick" else [(1, 1), (1, 2), (2, 3), (3, 3), (4, 5), (4, 4), (3, 10), (7, 10), (16, 16)]
+    for (k, n) in big:
+        for seg in ((4096, 65536) if tier == "quick" else (4096, 65536, 131072)):
+            for size in (seg + 1, seg + seg // 2, 2 * seg + 1 if seg < 131072 else seg + 4097):
+                out.append({"k": k, "n": n, "happy": n, "seg": seg, "size": size, "S": n})
     return out
 
 
